@@ -233,5 +233,5 @@ def instances(tier):
 LEVEL_TEXT = ("Bounded model checking of the real Diagnostic plumbing (__init__, register_function, diagnose_network) with symbolic option "
               "values and solver-enumerated option names: what every diagnostic function receives in a call is shown to be the defaults "
               "overridden by that call's own arguments, for all values, across instances and across calls.")
-LEVEL_NOTE = ("Trusted: the diagnostic functions themselves are stubbed by recorders (they cannot leak state between Diagnostic objects other "
+LEVEL_NOTE = ("Trusted: in the option instances the diagnostic functions are stubbed by recorders; the network_unchanged_* instances run four real diagnostic functions around a stubbed power flow (they cannot leak state between Diagnostic objects other "
               "than through the plumbing checked here); z3. Bounds: <= 2 options, <= 2 calls, <= 2 instances.")
